@@ -15,6 +15,7 @@ RULE = ("70% directed OTA scenarios (harness/gen/scenarios.ota_history: 1-3 node
         "update calls) + 30% generic grammar; all five protocol versions x threaded/asyncio x plain/MQTT; replayed on the real "
         "gateway under the monitor c10 (reference session automaton) and on the extracted model; non-trivial = distinct "
         "history in which a config request and a block request were both answered")
+RULE += ' MONITORS ONLY: the update started from INSIDE the event callback of a presentation / a value report (4 versions x 2): reboot request, end of the reboot window, configuration and first block.'
 ASSUMPTIONS = ["a well-formed block request for a type/version without stored firmware still moves the session to Fetching "
                "(no reply): accepted reading, DESIGN.md section 6 C10",
                "update calls coerce type and version with int(): '7' means 7; an image that loads as empty makes the call a no-op",
